@@ -13,15 +13,30 @@ Base/Table.vos Base/Table.vok Base/Table.required_vos: Base/Table.v
 Gen/Consts.vo Gen/Consts.glob Gen/Consts.v.beautified Gen/Consts.required_vo: Gen/Consts.v 
 Gen/Consts.vio: Gen/Consts.v 
 Gen/Consts.vos Gen/Consts.vok Gen/Consts.required_vos: Gen/Consts.v 
+Gen/DescTables.vo Gen/DescTables.glob Gen/DescTables.v.beautified Gen/DescTables.required_vo: Gen/DescTables.v Model/Text.vo Model/XmlTree.vo
+Gen/DescTables.vio: Gen/DescTables.v Model/Text.vio Model/XmlTree.vio
+Gen/DescTables.vos Gen/DescTables.vok Gen/DescTables.required_vos: Gen/DescTables.v Model/Text.vos Model/XmlTree.vos
 Gen/Enums.vo Gen/Enums.glob Gen/Enums.v.beautified Gen/Enums.required_vo: Gen/Enums.v 
 Gen/Enums.vio: Gen/Enums.v 
 Gen/Enums.vos Gen/Enums.vok Gen/Enums.required_vos: Gen/Enums.v 
 Gen/Layouts.vo Gen/Layouts.glob Gen/Layouts.v.beautified Gen/Layouts.required_vo: Gen/Layouts.v Base/Layout.vo
 Gen/Layouts.vio: Gen/Layouts.v Base/Layout.vio
 Gen/Layouts.vos Gen/Layouts.vok Gen/Layouts.required_vos: Gen/Layouts.v Base/Layout.vos
+Model/Text.vo Model/Text.glob Model/Text.v.beautified Model/Text.required_vo: Model/Text.v 
+Model/Text.vio: Model/Text.v 
+Model/Text.vos Model/Text.vok Model/Text.required_vos: Model/Text.v 
 Model/Vhd.vo Model/Vhd.glob Model/Vhd.v.beautified Model/Vhd.required_vo: Model/Vhd.v Base/Arith.vo Base/Plan.vo Base/Table.vo Gen/Consts.vo
 Model/Vhd.vio: Model/Vhd.v Base/Arith.vio Base/Plan.vio Base/Table.vio Gen/Consts.vio
 Model/Vhd.vos Model/Vhd.vok Model/Vhd.required_vos: Model/Vhd.v Base/Arith.vos Base/Plan.vos Base/Table.vos Gen/Consts.vos
+Model/Vmx.vo Model/Vmx.glob Model/Vmx.v.beautified Model/Vmx.required_vo: Model/Vmx.v Model/Text.vo Model/XmlTree.vo Gen/DescTables.vo
+Model/Vmx.vio: Model/Vmx.v Model/Text.vio Model/XmlTree.vio Gen/DescTables.vio
+Model/Vmx.vos Model/Vmx.vok Model/Vmx.required_vos: Model/Vmx.v Model/Text.vos Model/XmlTree.vos Gen/DescTables.vos
+Model/XmlDesc.vo Model/XmlDesc.glob Model/XmlDesc.v.beautified Model/XmlDesc.required_vo: Model/XmlDesc.v Base/Plan.vo Model/Text.vo Model/XmlTree.vo Gen/DescTables.vo
+Model/XmlDesc.vio: Model/XmlDesc.v Base/Plan.vio Model/Text.vio Model/XmlTree.vio Gen/DescTables.vio
+Model/XmlDesc.vos Model/XmlDesc.vok Model/XmlDesc.required_vos: Model/XmlDesc.v Base/Plan.vos Model/Text.vos Model/XmlTree.vos Gen/DescTables.vos
+Model/XmlTree.vo Model/XmlTree.glob Model/XmlTree.v.beautified Model/XmlTree.required_vo: Model/XmlTree.v Model/Text.vo
+Model/XmlTree.vio: Model/XmlTree.v Model/Text.vio
+Model/XmlTree.vos Model/XmlTree.vok Model/XmlTree.required_vos: Model/XmlTree.v Model/Text.vos
 Proofs/Vhd.vo Proofs/Vhd.glob Proofs/Vhd.v.beautified Proofs/Vhd.required_vo: Proofs/Vhd.v Base/Arith.vo Base/Plan.vo Base/Table.vo Model/Vhd.vo
 Proofs/Vhd.vio: Proofs/Vhd.v Base/Arith.vio Base/Plan.vio Base/Table.vio Model/Vhd.vio
 Proofs/Vhd.vos Proofs/Vhd.vok Proofs/Vhd.required_vos: Proofs/Vhd.v Base/Arith.vos Base/Plan.vos Base/Table.vos Model/Vhd.vos
